@@ -179,6 +179,27 @@ func poolCatalogue(r *core.Run, rng *rand.Rand) ([]poolTarget, bool) {
 		add(fmt.Sprintf("zone-spelling#%d(%s)/Parse", k, z), 1, exifCall("Parse", b, -1))
 		add(fmt.Sprintf("zone-spelling#%d(%s)/Decode", k, z), 1, exifCall("Decode", b, -1))
 	}
+	// scans that END IN AN ERROR (no further marker, truncated segment, truncated Exif payload) next to scans that succeed:
+	// what a failed scan leaves behind must not reach the next one
+	{
+		tl := gen.BuildFullTIFF(rand.New(rand.NewSource(77)), "LE")
+		good := gen.WrapJPEG(tl, rng, 1)
+		nomark := append([]byte{0xFF, 0xD8}, bytes.Repeat([]byte{0x11}, 300)...)
+		for k, v := range []struct {
+			name string
+			data []byte
+			cut  int
+		}{{"no-marker", nomark, -1}, {"cut-in-segment", good, 30}, {"cut-in-exif", good, 200}, {"cut-in-dqt", good, len(good) - 140}, {"whole", good, -1}} {
+			add(fmt.Sprintf("jpeg-scan#%d(%s)/DecodeJPEG", k, v.name), 1, exifCall("DecodeJPEG", v.data, v.cut))
+			add(fmt.Sprintf("jpeg-scan#%d(%s)/Decode", k, v.name), 1, exifCall("Decode", v.data, v.cut))
+			add(fmt.Sprintf("jpeg-scan#%d(%s)/ScanJPEG-raw", k, v.name), 1, core.Op{Kind: "call", Data: v.data, Cut: v.cut, Fault: "EOF", Args: callArgsJSON("ScanJPEG/raw")})
+		}
+	}
+	// preview images of several sizes: the returned bytes are held and looked at again after every later call
+	for k, n := range []int{300, 700, 2048, 2049, 5000, 70000} {
+		tl := gen.BuildFullTIFF(rand.New(rand.NewSource(int64(k))), "LE")
+		add(fmt.Sprintf("PreviewCR3/preview-%d", n), 2, core.Op{Kind: "prevhold", Data: cr3WithPreview(tl[:300], n, false, rng), Cut: -1})
+	}
 	for _, s := range repoSamples(64 * 1024) {
 		if s.Kind == "jpeg" || s.Kind == "tiff" || s.Kind == "heif" {
 			add("sample:"+s.Name+"/Decode", 2, exifCall("Decode", s.Data, -1))
@@ -539,6 +560,75 @@ func runC04(r *core.Run) {
 		}
 		if string(res[1].R) != string(bobs[b].R) || res[1].Err != bobs[b].Err || res[1].Bad != bobs[b].Panic {
 			r.Violate("history:metadata:"+targets[b].Name+":after-sibling", fmt.Sprintf("%s returns a different result right after %s than in a fresh process (%s)", targets[b].Name, targets[a].Name, firstDiff(res[1].R, bobs[b].R)), replay)
+		}
+	}
+	// calls that OVERLAP in time are also "other calls of the same process": the hash functions (pooled pixel buffers held
+	// across a long computation) run on 8 goroutines over different images; every result must be the fresh-process one
+	var hashIdx []int
+	for i, t := range targets {
+		if t.Op.Kind == "hash" && t.Cls == 3 {
+			hashIdx = append(hashIdx, i)
+		}
+	}
+	if len(hashIdx) >= 4 {
+		var cops []core.Op
+		var csub [][]int
+		byFn := map[string][]int{}
+		var fns []string
+		for _, ti := range hashIdx {
+			var a struct {
+				Fn string `json:"fn"`
+			}
+			json.Unmarshal(targets[ti].Op.Args, &a)
+			if _, ok := byFn[a.Fn]; !ok {
+				fns = append(fns, a.Fn)
+			}
+			byFn[a.Fn] = append(byFn[a.Fn], ti)
+		}
+		sort.Strings(fns)
+		for b, fn := range fns { // one batch per function: 8 goroutines inside the same function, each on its own image
+			var subs []core.Op
+			var idx []int
+			for g := 0; g < 8; g++ {
+				ti := byFn[fn][g%len(byFn[fn])]
+				subs = append(subs, targets[ti].Op)
+				idx = append(idx, ti)
+			}
+			rounds := 400
+			if strings.Contains(fn, "256") {
+				rounds = 120
+			}
+			a, _ := json.Marshal(map[string]interface{}{"subs": subs, "rounds": rounds, "procs": []int{1, 4}[b%2]})
+			cops = append(cops, core.Op{ID: len(cops), Kind: "concurrent", Cut: -1, Args: a, Heavy: true})
+			csub = append(csub, idx)
+		}
+		cobs, err := core.RunOps(cops, core.WorkerOpts{Fresh: true, Shards: 4, Stall: 20 * time.Second})
+		if err != nil {
+			r.Machinery("worker (overlapping hash calls): %v", err)
+			return
+		}
+		for bi := range cobs {
+			o := &cobs[bi]
+			if o.Bad() {
+				r.Violate("history:overlap:"+o.BadKind(), fmt.Sprintf("overlapping hash calls: %s %s%s", o.BadKind(), o.Panic, firstLines(o.Crash, 3)), replayOf(&cops[bi], o, nil))
+				continue
+			}
+			var res [][]struct {
+				R   json.RawMessage `json:"r"`
+				Err string          `json:"err"`
+				Bad string          `json:"bad"`
+			}
+			json.Unmarshal(o.R, &res)
+			for g := range res {
+				b := &bobs[csub[bi][g]]
+				for k := range res[g] {
+					r.Cases++
+					if x := res[g][k]; x.Err != b.Err || string(x.R) != string(b.R) || x.Bad != b.Panic {
+						r.Violate("history:overlap:"+targets[csub[bi][g]].Name, fmt.Sprintf("%s returns a different result while other hash calls overlap with it than in a fresh process (%s)", targets[csub[bi][g]].Name, firstDiff(x.R, b.R)), replayOf(&cops[bi], o, nil))
+						break
+					}
+				}
+			}
 		}
 	}
 	r.Extra["family_pairs"] = len(pops)
